@@ -152,6 +152,11 @@ type actState struct {
 	lastFreezeN int
 	lockAfterFreeze bool
 	lockAfterCatch  bool
+	state           string
+	told            bool // the last lock answer of this activation was "held"
+	toldTrue        int
+	nacts           int
+	unconfirmed     string
 	collecting      bool
 	readsOK         bool
 	relaxAfterFreeze int
@@ -169,10 +174,21 @@ type vObserver struct {
 	acts   map[string]*actState
 	promos []promoRow
 	atts   []attemptRow
+	actRows []actRow
+	tolds   []toldRow
 }
 
 func newObserver(s *vSim, sc *vScenario) *vObserver {
 	return &vObserver{s: s, sc: sc, acts: map[string]*actState{}}
+}
+
+// vClusterWidePath: coordination records only the lock holder may write (C03)
+func vClusterWidePath(p string) bool {
+	switch p {
+	case pathMasterNode, pathActiveNodes, pathCurrentSwitch, pathLastSwitch, pathLastRejectedSwitch, pathMaintenance:
+		return true
+	}
+	return strings.HasPrefix(p, pathRecovery+"/")
 }
 
 func (o *vObserver) cascadeHosts() []string {
@@ -191,6 +207,7 @@ func (o *vObserver) onEvent(ev *verifsim.TraceEvent, worldLocked bool) {
 		recovery []string
 		optreg   []string
 		emerge   bool
+		owner    string
 	}
 	switch {
 	case ev.K == "sql" && ev.Op == "SetWritable" && ev.Res == "ok":
@@ -200,6 +217,7 @@ func (o *vObserver) onEvent(ev *verifsim.TraceEvent, worldLocked bool) {
 		pre.optreg = nn(o.s.Z.ChildrenOf(vNS + "/optimization_nodes"))
 	case ev.K == "app" && ev.Op == "AcquireLock" && ev.Res == "true":
 		pre.snap = o.s.hostsSnapshot(!worldLocked)
+		pre.owner = o.s.Z.OwnerClient(vNS + "/" + pathManagerLock)
 	case ev.K == "app" && ev.Op == "Enter":
 		pre.master = o.s.zkMaster()
 	case ev.K == "app" && (ev.Op == "Exit" || ev.Op == "ExitDead"):
@@ -212,10 +230,30 @@ func (o *vObserver) onEvent(ev *verifsim.TraceEvent, worldLocked bool) {
 		switch ev.Op {
 		case "Enter":
 			if ev.Arg == "Manager" || ev.Arg == "Maintenance" || ev.Arg == "Candidate" || ev.Arg == "Lost" || ev.Arg == "FirstRun" {
-				o.acts[ev.By] = &actState{froze: map[string]bool{}, stopped: map[string]bool{}, oldMaster: pre.master, turbo: map[string]bool{}}
+				o.acts[ev.By] = &actState{froze: map[string]bool{}, stopped: map[string]bool{}, oldMaster: pre.master, turbo: map[string]bool{}, state: ev.Arg}
 			}
 		case "AcquireLock":
 			a := o.acts[ev.By]
+			if ev.Arg == pathManagerLock {
+				if a != nil {
+					a.told = ev.Res == "true"
+					if a.told {
+						a.toldTrue++
+					}
+				}
+				if ev.Res == "true" {
+					found := false
+					for k := range o.tolds {
+						if o.tolds[k].By == ev.By && o.tolds[k].Owner == pre.owner {
+							o.tolds[k].Count++
+							found = true
+						}
+					}
+					if !found {
+						o.tolds = append(o.tolds, toldRow{Kind: "told", Scn: o.sc.ID, By: ev.By, Owner: pre.owner, T: ev.T, Count: 1})
+					}
+				}
+			}
 			if a != nil && ev.Res == "true" && a.anyFreeze && a.collect == nil {
 				// first lock re-check after freezing: positions are collected next
 				// the frozen set as mysync sees it = the hosts whose positions it reads next
@@ -229,6 +267,22 @@ func (o *vObserver) onEvent(ev *verifsim.TraceEvent, worldLocked bool) {
 			}
 		case "Exit", "ExitDead":
 			a := o.acts[ev.By]
+			if a != nil && a.nacts > 0 {
+				found := false
+				for k := range o.actRows {
+					r := &o.actRows[k]
+					if r.By == ev.By && r.State == a.state && r.Unconfirmed == a.unconfirmed {
+						r.Count++
+						r.Actions += a.nacts
+						r.ToldTrue += a.toldTrue
+						found = true
+					}
+				}
+				if !found {
+					o.actRows = append(o.actRows, actRow{Kind: "act", Scn: o.sc.ID, By: ev.By, State: a.state, Actions: a.nacts,
+						Unconfirmed: a.unconfirmed, ToldTrue: a.toldTrue, Count: 1})
+				}
+			}
 			if a != nil && a.collect != nil {
 				sort.Strings(a.frozen)
 				ended := "exit"
@@ -244,6 +298,12 @@ func (o *vObserver) onEvent(ev *verifsim.TraceEvent, worldLocked bool) {
 		a := o.acts[ev.By]
 		if a == nil {
 			return
+		}
+		if (ev.Op == "Create" || ev.Op == "SetData" || ev.Op == "Delete") && vClusterWidePath(ev.At) {
+			a.nacts++
+			if !a.told && a.unconfirmed == "" {
+				a.unconfirmed = "zk " + ev.Op + " " + ev.At
+			}
 		}
 		if ev.Op == "GetData" && ev.At == pathActiveNodes && !a.activeSeen {
 			a.activeSeen = true
@@ -262,6 +322,12 @@ func (o *vObserver) onEvent(ev *verifsim.TraceEvent, worldLocked bool) {
 		a := o.acts[ev.By]
 		if a == nil {
 			return
+		}
+		if ev.Mut && ev.At != ev.By {
+			a.nacts++
+			if !a.told && a.unconfirmed == "" {
+				a.unconfirmed = "sql " + ev.Op + " on " + ev.At
+			}
 		}
 		if a.collecting {
 			if ev.Mut {
@@ -323,10 +389,34 @@ func (o *vObserver) onEvent(ev *verifsim.TraceEvent, worldLocked bool) {
 
 // ---- runner ---------------------------------------------------------------------------
 
+// actRow (C03): one activation of a state handler that issued at least one cluster-wide action
+type actRow struct {
+	Kind        string `json:"kind"` // "act"
+	Scn         string `json:"scn"`
+	By          string `json:"by"`
+	State       string `json:"state"`
+	Actions     int    `json:"actions"`
+	Unconfirmed string `json:"unconfirmed"` // first cluster-wide action issued while the last lock answer was not "held"
+	ToldTrue    int    `json:"toldtrue"`
+	Count       int    `json:"count"` // activations aggregated into this row (same by/state/unconfirmed)
+}
+
+// toldRow (C03): one positive lock answer with the server-side owner at that instant
+type toldRow struct {
+	Kind  string `json:"kind"` // "told"
+	Scn   string `json:"scn"`
+	By    string `json:"by"`
+	Owner string `json:"owner"`
+	T     int64  `json:"t"`     // first occurrence
+	Count int    `json:"count"` // answers aggregated into this row (same by/owner)
+}
+
 type vRunResult struct {
 	sc      *vScenario
 	promos  []promoRow
 	atts    []attemptRow
+	acts    []actRow
+	tolds   []toldRow
 	census  []string
 	trace   []verifsim.TraceEvent
 	final   map[string]hostRow
@@ -501,6 +591,8 @@ func vRun(t *testing.T, sc *vScenario, opt vRunOpts) *vRunResult {
 		res.census = hook.census
 		res.promos = obs.promos
 		res.atts = obs.atts
+		res.acts = obs.actRows
+		res.tolds = obs.tolds
 		res.final = s.hostsSnapshot(true)
 		res.tree = s.treeSnapshot()
 		for h, in := range s.insts {
